@@ -95,6 +95,14 @@ def body_model(case):
     check(got.shape == exp.shape, "system_capture:shape", f"{got.shape} != {exp.shape}")
     check(np.all(np.abs(got - exp) <= 1e-10 * scm.reshape(exp.shape) + 1e-300), "system_capture:value",
           f"system_capture(x)={np.ravel(got)[:3].tolist()} != capture of mixed spectrum {np.ravel(exp)[:3].tolist()}")
+    # whole-number intensities (e.g. DAC steps) as an int64 array / list of ints give the captures of the same numbers as floats
+    Xw = np.round(X)
+    iform = ("int", "intlist")[(nf + ns) % 2]
+    with calling(f"system_capture / system_relative_capture (whole-number intensities as {iform})"):
+        gi, gf = np.asarray(est.system_capture(gens.as_form(Xw, iform)), dtype=float), np.asarray(est.system_capture(Xw.copy()), dtype=float)
+        ri, rf = np.asarray(est.system_relative_capture(gens.as_form(Xw, iform)), dtype=float), np.asarray(est.system_relative_capture(Xw.copy()), dtype=float)
+    check(gi.shape == gf.shape and np.all(np.abs(gi - gf) <= 1e-12 * (np.abs(gf) + 1e-300)) and ri.shape == rf.shape and np.all(np.abs(ri - rf) <= 1e-12 * (np.abs(rf) + 1e-300)),
+          "system_capture:integer-intensities-differ", f"intensities {np.ravel(Xw)[:4].tolist()}.. as {iform}: {np.ravel(gi)[:3].tolist()}, as floats: {np.ravel(gf)[:3].tolist()}")
     # (a') the same statement when the sources live on their own wavelength grid (a shifted grid whose overlap with the filters'
     # grid is not a whole number of steps): A x is the capture of the mixed spectrum given on that grid
     nd_ = F.shape[1]
